@@ -28,7 +28,7 @@ COMPONENTS = {
     'stub': ['user objective with failure plan', 'PRNG seam (seeded + extreme legal draws)', 'joblib', 'time.time', 'uuid1'],
 }
 PROBES_EXPECTED = ['pbest_kept', 'pbest_replaced', 'hit_upper', 'hit_lower', 'inside', 'velocity_clamped_hi', 'velocity_clamped_lo',
-                   'leaders_at_capacity', 'omopso', 'smpso', 'psoga', 'direct_family', 'shared_features']
+                   'leaders_at_capacity', 'omopso', 'smpso', 'psoga', 'direct_family', 'box_narrowed_between_uses']
 
 ALGOS = ('omopso', 'smpso', 'psoga')
 FACTOR = {'OMOPSO': -1, 'PSOGA': -1, 'SMPSO': 0.001}
@@ -185,6 +185,13 @@ def _direct(D):
                             ind.features['best_vector'][i] = ub + rng * 50
                         elif c == 4:
                             ind.vector[i] = (lb, ub)[D.dec('work', ('wb', rnd, pi, i), 2)]
+                if rnd >= 1 and D.dec('work', ('narrow', rnd), 3) == 1:
+                    # the user narrows the box in place between two uses of the same algorithm object (legal: the
+                    # parameters are plain dicts); every later update must respect the box as it is now
+                    for p in alg.parameters:
+                        lb, ub = p['bounds']
+                        p['bounds'] = [lb + 0.25 * (ub - lb), ub - 0.25 * (ub - lb)]
+                    ctx.probe('box_narrowed_between_uses')
                 alg.update_velocity(parts)
                 for pi, ind in enumerate(parts):
                     for i, p in enumerate(alg.parameters):
